@@ -206,6 +206,70 @@ def job_find_geometry():
     return {'results': results, 'encoded': loader.ENCODED, 'axioms': CTX.axiom_notes, 'label': 'find_geometry (%d valid, %d raising patterns)' % (n_ok, n_raise)}
 
 
+def job_layer_mass_below(nlayers):
+    """LayerBase.set_geometry (structures/layers/basic.py): the mass handed to the spherical geometry as `mass_below` is the sum of ALL layers beneath (not only the neighbour), radius /
+    mass / thickness are forwarded unchanged, the bottom layer's missing thickness is its radius, and the tidal volume fraction is volume / world volume"""
+    class Log:
+        def debug(self, *a):
+            pass
+        error = warning = info = debug
+    rec = {}
+
+    class Sup:
+        def __init__(self, me):
+            self.me = me
+
+        def set_geometry(self, radius, mass, thickness, mass_below=None, update_state_geometry=True, build_slices=True):
+            rec.update(radius=radius, mass=mass, thickness=thickness, mass_below=mass_below)
+            self.me.volume = Q.sym('volume_of_layer')
+    holder = {}
+    ns = {'log': Log(), 'MissingArgumentError': MissingArgumentError, 'super': lambda: Sup(holder['me'])}
+    fns, _ = loader.load_py('TidalPy/structures/layers/basic.py', ['LayerBase.set_geometry'], ns)
+    f = fns['LayerBase.set_geometry']
+    results = []
+    masses = [Q.sym('layer_mass_%d' % i) for i in range(nlayers)]
+    pos = [m.re > 0 for m in masses]
+    for idx in range(nlayers):
+        class L:
+            pass
+        layers = []
+        for i in range(nlayers):
+            o = L()
+            o.mass = masses[i]
+            o.layer_index = i
+            layers.append(o)
+        world = L()
+        world.layers = layers
+        world.volume = Q.sym('world_volume')
+        me = layers[idx]
+        me.world = world
+        me.layer_below = layers[idx - 1] if idx > 0 else None
+        me.use_tidal_vol_frac = True
+        holder['me'] = me
+        rec.clear()
+        R, M, T = Q.sym('radius'), Q.sym('mass'), Q.sym('thickness')
+        f(me, R, M, T)
+        want = sum(masses[:idx], Q(0))
+        conds = [eq_goal(Q.of(rec['mass_below']), want), eq_goal(Q.of(rec['radius']), R), eq_goal(Q.of(rec['mass']), M), eq_goal(Q.of(rec['thickness']), T),
+                 eq_goal(Q.of(me.tidal_scale), me.volume / world.volume)]
+
+        def rp(md, idx=idx):
+            # public-API replay: a shipped multi-layer world: enclosed mass below each layer == sum of the masses of all layers beneath; surface gravity == G M / R^2
+            out = run_real_world({'kind': 'mass_below', 'world': 'earth_simple'})
+            if out is None or out.get('error'):
+                return True, 'replay runner failed: %r' % (out,)
+            return bool(out.get('bad')), 'real build_world(earth_simple): per layer (mass_below reported, sum of the masses of the layers beneath) = %r ; surface gravity_outer %r vs G M / R^2 %r' % (
+                out.get('rows'), out.get('g_top'), out.get('g_want'))
+        results.append(discharge(Obligation('LayerBase.set_geometry, layer %d of %d: mass_below = sum of the masses of ALL layers beneath; radius, mass, thickness forwarded; tidal_scale = volume / world volume' % (idx, nlayers),
+                                            z3.And(*conds), pos, replay=rp, key='layer:mass_below')))
+        if idx == 0:
+            rec.clear()
+            f(me, R, M)
+            results.append(discharge(Obligation('LayerBase.set_geometry, bottom layer without thickness: thickness = radius', eq_goal(Q.of(rec['thickness']), R), pos,
+                                                replay=lambda md: (True, 'bottom layer thickness default (current source)'), key='layer:bottom-thickness')))
+    return {'results': results, 'encoded': loader.ENCODED, 'label': 'layer mass_below (%d layers)' % nlayers}
+
+
 def job_stack(kind):
     """three layers stacked through find_geometry_from_config + set_geometry: contiguous, volumes sum to the world volume, masses sum to the world mass when it is derived from the layers"""
     fgc, setgeo, pi, G = load_geometry()
@@ -416,10 +480,15 @@ def job_scale():
     R = [Q.sym('R0'), Q.sym('R1'), Q.sym('R2')]
     pos = [s.re > 0, R[0].re > 0, (R[1] > R[0]).c, (R[2] > R[1]).c]
     results = []
-    for region, extra in (('scale >= 1', [(s >= 1).c]), ('scale < 1', [(s < 1).c])):
+    for region, extra, derived in (('scale >= 1', [(s >= 1).c], False), ('scale < 1', [(s < 1).c], False), ('scale >= 1, source already carries thickness / radius_inner (a previously scaled world)', [(s >= 1).c], True)):
         CTX.facts = pos + extra
         old_cfg = {'name': 'demo', 'radius': R[2], 'TidalPy_version': 'x', 'layers': {'core': {'radius': R[0], 'density': Q.sym('d0'), 'radii': [1, 2]}, 'mantle': {'radius': R[1], 'density': Q.sym('d1')},
                                                                                    'crust': {'radius': R[2], 'density': Q.sym('d2')}}}
+        if derived:
+            # what scale_from_world itself writes into a configuration: a second scaling must not reuse the stale (unscaled) values
+            for i, nm in enumerate(('core', 'mantle', 'crust')):
+                old_cfg['layers'][nm]['thickness'] = R[i] - (R[i - 1] if i else Q(0))
+                old_cfg['layers'][nm]['radius_inner'] = R[i - 1] if i else Q(0)
         snapshot = copy.deepcopy(old_cfg)
         ids = {k: id(vv) for k, vv in old_cfg['layers'].items()}
         world = type('World', (), {'name': 'demo', 'config': old_cfg})()
@@ -438,11 +507,11 @@ def job_scale():
             v_new = Q.of(lay[nm]['radius']) ** 3 - Q.of(lay[nm]['radius_inner']) ** 3
             conds.append(eq_goal(v_new * R[2] ** 3, v_old * Q.of(cfg['radius']) ** 3))
         results.append(discharge(Obligation('scale_from_world (%s): world radius, every layer radius / inner radius / thickness are multiplied by the factor, layers contiguous, volume fractions preserved' % region,
-                                            z3.And(*conds), pos + extra, replay=lambda md: replay_scale(md), key='scale:lengths')))
+                                            z3.And(*conds), pos + extra, replay=lambda md, derived=derived: replay_scale(md, derived), key='scale:lengths')))
         same = _same_structure(old_cfg, snapshot) and all(id(old_cfg['layers'][k]) == ids[k] for k in ids)
         results.append(discharge(Obligation('scale_from_world (%s): the source world\'s configuration is not mutated (deep comparison with a snapshot taken before the call)' % region, z3.BoolVal(same), [],
                                             with_axioms=False, with_dens=False, replay=lambda md: (True, 'old_world.config was modified by scale_from_world'), key='scale:nomutate')))
-        want_name = 'super-demo' if region == 'scale >= 1' else 'mini-demo'
+        want_name = 'super-demo' if region.startswith('scale >= 1') else 'mini-demo'
         results.append(discharge(Obligation('scale_from_world (%s): derived name is %r (distinct from the source name)' % (region, want_name), z3.BoolVal(captured['name'] == want_name and captured['name'] != 'demo'), [],
                                             with_axioms=False, with_dens=False, replay=lambda md: (True, 'derived name %r' % captured['name']), key='scale:name')))
     # build_from_world does not mutate old config nor the new_config argument
@@ -471,8 +540,8 @@ def _same_structure(a, b):
     return a == b
 
 
-def replay_scale(md):
-    out = run_real_world({'scale': float(md.get('scale', 1.7))})
+def replay_scale(md, twice=False):
+    out = run_real_world({'scale': float(md.get('scale', 1.7)), 'twice': bool(twice)})
     if out is None:
         return False, 'replay runner failed'
     return bool(out.get('scale_bad')), 'real scale_from_world: %s' % json.dumps(out)[:400]
@@ -480,6 +549,7 @@ def replay_scale(md):
 
 def main():
     jobs = [(job_set_geometry, {'num_slices': n}) for n in ((1, 2, 3, 4) if TIER == 'thorough' else (2, 3))]
+    jobs += [(job_layer_mass_below, {'nlayers': n}) for n in ((3, 4, 6) if TIER == 'thorough' else (3, 4))]
     jobs += [(job_find_geometry, {})] + [(job_stack, {'kind': k}) for k in ('radius', 'thickness', 'mixed')] + [(job_scale, {})]
     jobs += [(job_naming, {'chain': c}) for c in ((1, 2, 3) if TIER != 'thorough' else (1, 2, 3, 4))]
     meta = {
